@@ -120,6 +120,8 @@ func runCase(c Case) []V {
 		return runDgram(c)
 	case "loop-ws", "loop-quic", "loop-wt":
 		return runLoop(c)
+	case "loop-skip":
+		return []V{{inconclusive + "time-budget", "loopback group time budget exhausted before this case"}}
 	}
 	return []V{{"C13.harness:unknown-kind", c.Kind}}
 }
